@@ -17,6 +17,9 @@
 (*  sort : Elements.Sort / ElementIDs.Sort / FeatureIDs.Sort return the       *)
 (*         items in (kind, ref, version) order (ids compared after decoding   *)
 (*         by their own Type/Ref/Version).                                    *)
+(*  bigsort : the same sorts (and Nodes/Ways/Relations.SortByIDVersion for   *)
+(*         one-kind lists) on lists of 258..1026 ids with structured byte     *)
+(*         patterns; the expected result is computed position by position.    *)
 (*  text : Conforms(Verdict(P, toks), outcome of parser P) for the 3 parsers. *)
 (* Typed accessors of a different kind (NodeID() on a way ...) are recorded   *)
 (* but not judged: the property does not mention them.                        *)
@@ -121,6 +124,25 @@ SortLayoutWhy(c, g) ==
         /\ \A i \in 1 .. n : g.eids[i].id = ObjL(exp[i]) /\ g.fids[i].id = FeatL(exp[i])
      THEN << >> ELSE <<"layout of sorted ids">>
 
+(* --------------------------------- bigsort ------------------------------- *)
+\* a large structured list (PackedIdsSpace, "big sort cases"): every sort returns first, the product of dom
+\* in lexicographic order, last; results are digit vectors decoded by the recorder from Type / Ref / Version
+BigListOK(c, W, n, lst, withVer) ==
+  /\ Len(lst) = n
+  /\ \A i \in 1 .. n : \A j \in Pos :
+        lst[i][j] = (IF ~withVer /\ j >= 7 THEN 0 ELSE BigDigit(c, W, n, i, j))
+BigOneKind(c) == Len(c.dom[1]) = 1 /\ c.first[1] = c.dom[1][1] /\ c.last[1] = c.dom[1][1]
+BigWhy(c, g) ==
+  LET W == BigWeights(c)
+      n == 2 + BigProd(c)
+  IN IF ~BigOK(c) THEN <<"malformed big sort case">>
+     ELSE IF g.n # n THEN <<"harness expanded a different number of ids", n>>
+     ELSE IF ~BigListOK(c, W, n, g.elements, TRUE) THEN <<"Elements.Sort (large list)", n>>
+     ELSE IF ~BigListOK(c, W, n, g.eids, TRUE) THEN <<"ElementIDs.Sort (large list)", n>>
+     ELSE IF ~BigListOK(c, W, n, g.fids, FALSE) THEN <<"FeatureIDs.Sort (large list)", n>>
+     ELSE IF BigOneKind(c) /\ ~BigListOK(c, W, n, g.byidver, TRUE) THEN <<"SortByIDVersion (large list)", n>>
+     ELSE << >>
+
 (* ---------------------------------- text --------------------------------- *)
 OutcomeOf(g, P) == IF P = "obj" THEN g.obj ELSE IF P = "elem" THEN g.elem ELSE g.feat
 TextWhyWith(c, g, Good(_, _)) ==
@@ -140,10 +162,12 @@ Why(ln) ==
   THEN CASE ln.case.t = "val"  -> ValWhy(ln.case, ln.got)
          [] ln.case.t = "pair" -> PairWhy(ln.case, ln.got)
          [] ln.case.t = "sort" -> SortWhy(ln.case, ln.got)
+         [] ln.case.t = "bigsort" -> BigWhy(ln.case, ln.got)
          [] ln.case.t = "text" -> TextWhy(ln.case, ln.got)
   ELSE CASE ln.case.t = "val"  -> ValLayoutWhy(ln.case, ln.got)
          [] ln.case.t = "pair" -> << >>
          [] ln.case.t = "sort" -> SortLayoutWhy(ln.case, ln.got)
+         [] ln.case.t = "bigsort" -> << >>
          [] ln.case.t = "text" -> TextLayoutWhy(ln.case, ln.got)
 
 \* no known findings for C10 on the pinned tree
